@@ -73,7 +73,7 @@ def generate(seed, tier):
         cfg["Lmin"] = Lmin
         N = rw.choice([1500, 3000])
     data = {"N": N + d, "channels": 1, "recipe": rw.choice(["noise", "noise", "multisine", "trend+noise", "randwalk", "sine+noise", "line+floor", "steepred", "gapped", "gapped"]),
-            "rng": rw.randrange(2 ** 31), "scale": rw.choice([1.0, 1e-3, 1e3]), "offset": rw.choice([0.0, 0.0, 1.0]), "coupling": 0.0}
+            "rng": rw.randrange(2 ** 31), "scale": rw.choice([1.0, 1e-3, 1e3, 1e-9]), "offset": rw.choice([0.0, 0.0, 1.0]), "coupling": 0.0}
     # data faults: non-finite samples in the base record z are zero-filled in both channels consistently
     # (x and y are slices of z), so both laws survive sanitising
     if rw.random() < 0.15:
@@ -84,6 +84,7 @@ def generate(seed, tier):
         singles.append(["edge", rw.choice([0.0, 0.5, round(rw.uniform(0.5, 1.0), 4), round(rw.uniform(0.5, 1.0), 4)]), rw.choice([16, 32, 33, 64])])
     rows_of_recording = rw.randrange(1, 2 ** 31) if rw.random() < 0.3 else None
     concurrent_decoy = rw.randrange(1, 2 ** 31) if rw.random() < 0.3 else None
+    fortran_buffer = (rows_of_recording is None) and rw.random() < 0.2
     # attributes a user may read before the transfer function (exports, conditioned spectra, error bars ...)
     auto_first = rw.random() < 0.3      # the first channel analysed alone (same plan) before the pair, in the same process
     pre_access = rw.sample(RM.CROSS_ONLY + ["Gxx", "Gyy", "Gxy", "ENBW", "to_dataframe"], rw.randrange(0, 5)) if rw.random() < 0.5 else []
@@ -95,7 +96,7 @@ def generate(seed, tier):
         g2 = rw.choice([1.0, -1.0, 2.0, 0.5, -3.0, 7.0])
         data2 = dict(data, recipe=rw.choice(["noise", "multisine", "randwalk"]), rng=rw.randrange(2 ** 31), N=N + d2)
         refills.append({"law": law2, "g": g2, "d": d2, "data": data2})
-    return {"law": law, "g": g, "d": d, "N": N, "data": data, "cfg": cfg, "singles": singles, "refills": refills, "pre_access": pre_access, "auto_first": auto_first, "rows_of_recording": rows_of_recording, "concurrent_decoy": concurrent_decoy,
+    return {"law": law, "g": g, "d": d, "N": N, "data": data, "cfg": cfg, "singles": singles, "refills": refills, "pre_access": pre_access, "auto_first": auto_first, "rows_of_recording": rows_of_recording, "concurrent_decoy": concurrent_decoy, "fortran_buffer": fortran_buffer,
             "worlds": [W.gen_world(rf, k, 8) for k in kinds], "clock": CK.gen_clock(R.stream(seed, "clock"), p_none=0.5)}
 
 
@@ -130,6 +131,9 @@ def execute(sc, out):
         big = np.random.default_rng(sc["rows_of_recording"]).normal(size=(4, sc["N"])) * 3.0
         buf = big[2:4]              # the pair is a contiguous row-slice view of a larger recording
         out.count("channels_are_rows_of_a_larger_recording")
+    elif sc.get("fortran_buffer"):
+        buf = np.empty((2, sc["N"]), dtype=np.float64, order="F")      # e.g. table.T of a sample-major N x 2 table
+        out.count("fortran_ordered_buffer")
     else:
         buf = np.empty((2, sc["N"]), dtype=np.float64)
     for si, st in enumerate(stages):
